@@ -157,6 +157,11 @@ func runC12Flow(rep *TReport, raw json.RawMessage) {
 			rep.Notes = append(rep.Notes, "refresh set-up refused: "+o0.Res+" for "+req)
 			return
 		}
+		// a registration update stores a NEW client record (what every store that serialises clients does): the snapshot
+		// inside the stored grant keeps the old registration, and only the current one may decide
+		nc := *client
+		client = &nc
+		w.Mem.Clients[cname] = client
 		setReg(reg)
 		o = w.Exec(1, Op{Op: "refresh", Client: cname, Auth: "ok", Tok: 1})
 	case "jwt_bearer":
